@@ -1371,6 +1371,7 @@ class ListNode(SyntaxNodeBase):
                     try_reverse_expansion(shortcut, i, last_end)
                 else:
                     shortcut = None
+                    check_for_orphan_jump(new_vals[i])
             # otherwise it is actually a value to expand as well
             else:
                 if shortcut is not None:
@@ -1766,8 +1767,8 @@ class ShortcutNode(ListNode):
 
         # REPEAT
         elif self._type == Shortcuts.REPEAT:
-            if len(self.nodes) == 0 and node.value is not None:
-                return True
+            if len(self.nodes) == 0:
+                return node.value is not None
             if direction == 1:
                 edge = self.nodes[-1]
             else:
@@ -1796,7 +1797,7 @@ class ShortcutNode(ListNode):
                     self._full = True
                 return True
             if len(self.nodes) == 1 and not self._full:
-                return True
+                return self.nodes[0].value != 0
         return False
 
     def _is_valid_interpolate_edge(self, node, direction):
